@@ -40,6 +40,10 @@ VARIABLES
   bcDirty,    \* [BCs -> SUBSET Sides]   dirty BoundaryFaces
   bcPer,      \* [BCs -> SUBSET Sides]   sides whose `periodic' flag is set (part of the BC content; kept
               \*                         explicitly so that switching it ON and OFF are different transitions)
+  viewHot,    \* [BCs -> SUBSET Sides]   sides whose coefficient array has been written through a slice VIEW that the
+              \*                         program still holds (`w = face.c[sl]` kept across solves): the view carries a
+              \*                         private TrackedArray flag that apply_BCs cannot reset, so a second write through
+              \*                         it starts from a different implementation state than the first
   everShared, \* [BCs -> BOOLEAN]        the object was ever referred to by two variables
   alive,      \* [Vars -> BOOLEAN]
   bcOf,       \* [Vars -> BCs]
@@ -51,9 +55,9 @@ VARIABLES
   use,        \* what the last solve used: [var, cache, bc, exists]  (history, for C09)
   last        \* [name, args]  (history, for replay)
 
-vars == <<bcAlive, bcC, bcDirty, bcPer, everShared, alive, bcOf, intC, ghostFrom, cacheFrom,
+vars == <<bcAlive, bcC, bcDirty, bcPer, viewHot, everShared, alive, bcOf, intC, ghostFrom, cacheFrom,
           valDirty, precalc, use, last>>
-view == <<bcAlive, bcC, bcDirty, bcPer, everShared, alive, bcOf, intC, ghostFrom, cacheFrom,
+view == <<bcAlive, bcC, bcDirty, bcPer, viewHot, everShared, alive, bcOf, intC, ghostFrom, cacheFrom,
           valDirty, precalc, use>>
 
 AliveVars == {v \in Vars : alive[v]}
@@ -79,6 +83,7 @@ Init ==
   /\ bcC = [b \in BCs |-> 0]
   /\ bcDirty = [b \in BCs |-> {}]
   /\ bcPer = [b \in BCs |-> {}]
+  /\ viewHot = [b \in BCs |-> {}]
   /\ everShared = [b \in BCs |-> FALSE]
   /\ alive = [v \in Vars |-> FALSE]
   /\ bcOf = [v \in Vars |-> CHOOSE b \in BCs : TRUE]
@@ -100,6 +105,7 @@ NewBC(b) ==
   /\ everShared' = [everShared EXCEPT ![b] = FALSE]
   /\ use' = NoUse
   /\ bcPer' = [bcPer EXCEPT ![b] = {}]
+  /\ viewHot' = [viewHot EXCEPT ![b] = {}]
   /\ last' = [name |-> "NewBC", args |-> <<b>>]
   /\ UNCHANGED <<alive, bcOf, intC, ghostFrom, cacheFrom, valDirty, precalc>>
 
@@ -123,7 +129,7 @@ NewVar(v, b, pc) ==
   /\ everShared' = [everShared EXCEPT ![b] = everShared[b] \/ UsersOf(b) # {}]
   /\ use' = NoUse
   /\ last' = [name |-> "NewVar", args |-> <<v, b, pc>>]
-  /\ UNCHANGED <<bcAlive, bcC, bcDirty, bcPer>>
+  /\ UNCHANGED <<bcAlive, bcC, bcDirty, bcPer, viewHot>>
 
 (* CellVariable(mesh, value): creates its own default BC object *)
 NewVarDefault(v, b) ==
@@ -137,16 +143,19 @@ NewVarDefault(v, b) ==
   /\ cacheFrom' = [cacheFrom EXCEPT ![v] = FreshBC]
   /\ use' = NoUse
   /\ bcPer' = [bcPer EXCEPT ![b] = {}]
+  /\ viewHot' = [viewHot EXCEPT ![b] = {}]
   /\ last' = [name |-> "NewVarDefault", args |-> <<v, b>>]
 
 (* face.a = x, face.a[sl] = x, defaultNoFlux / fixedValue / fixedGradient / newtonCooling,
-   face.periodic = flag, or ONE coefficient alone through its property ("aonly" / "bonly" / "conly"):
+   face.periodic = flag, ONE coefficient alone through its property ("aonly" / "bonly" / "conly"), or a write
+   through a slice view of face.c that the program took earlier and still holds ("view"):
    content changes, the side becomes dirty *)
 EditBC(b, s, how) ==
   /\ bcAlive[b] /\ s \in Sides
   /\ bcC' = [bcC EXCEPT ![b] = FreshBC]
   /\ bcDirty' = [bcDirty EXCEPT ![b] = @ \cup {s}]
   /\ bcPer' = [bcPer EXCEPT ![b] = IF how # "periodic" THEN @ ELSE IF s \in @ THEN @ \ {s} ELSE @ \cup {s}]
+  /\ viewHot' = [viewHot EXCEPT ![b] = IF how = "view" THEN @ \cup {s} ELSE @]
   /\ use' = NoUse
   /\ last' = [name |-> "EditBC", args |-> <<b, s, how>>]
   /\ UNCHANGED <<bcAlive, everShared, alive, bcOf, intC, ghostFrom, cacheFrom, valDirty, precalc>>
@@ -158,19 +167,19 @@ ResetBCFlag(b) ==
   /\ bcDirty' = [bcDirty EXCEPT ![b] = {}]
   /\ use' = NoUse
   /\ last' = [name |-> "ResetBCFlag", args |-> <<b>>]
-  /\ UNCHANGED <<bcAlive, bcC, bcPer, everShared, alive, bcOf, intC, ghostFrom, cacheFrom, valDirty, precalc>>
+  /\ UNCHANGED <<bcAlive, bcC, bcPer, viewHot, everShared, alive, bcOf, intC, ghostFrom, cacheFrom, valDirty, precalc>>
 SetFaceFlag(b, s, val) ==
   /\ ManualReset /\ bcAlive[b] /\ s \in Sides
   /\ bcDirty' = [bcDirty EXCEPT ![b] = IF val THEN @ \cup {s} ELSE @ \ {s}]
   /\ use' = NoUse
   /\ last' = [name |-> "SetFaceFlag", args |-> <<b, s, val>>]
-  /\ UNCHANGED <<bcAlive, bcC, bcPer, everShared, alive, bcOf, intC, ghostFrom, cacheFrom, valDirty, precalc>>
+  /\ UNCHANGED <<bcAlive, bcC, bcPer, viewHot, everShared, alive, bcOf, intC, ghostFrom, cacheFrom, valDirty, precalc>>
 SetValueFlag(v, val) ==
   /\ ManualReset /\ alive[v]
   /\ valDirty' = [valDirty EXCEPT ![v] = val]
   /\ use' = NoUse
   /\ last' = [name |-> "SetValueFlag", args |-> <<v, val>>]
-  /\ UNCHANGED <<bcAlive, bcC, bcDirty, bcPer, everShared, alive, bcOf, intC, ghostFrom, cacheFrom, precalc>>
+  /\ UNCHANGED <<bcAlive, bcC, bcDirty, bcPer, viewHot, everShared, alive, bcOf, intC, ghostFrom, cacheFrom, precalc>>
 
 (* v.value = x  /  v.value[sl] = x *)
 AssignValue(v, how) ==
@@ -179,7 +188,7 @@ AssignValue(v, how) ==
   /\ valDirty' = [valDirty EXCEPT ![v] = TRUE]
   /\ use' = NoUse
   /\ last' = [name |-> "AssignValue", args |-> <<v, how>>]
-  /\ UNCHANGED <<bcAlive, bcC, bcDirty, bcPer, everShared, alive, bcOf, ghostFrom, cacheFrom, precalc>>
+  /\ UNCHANGED <<bcAlive, bcC, bcDirty, bcPer, viewHot, everShared, alive, bcOf, ghostFrom, cacheFrom, precalc>>
 
 (* v.update_value(w): the whole array of w (ghost layer included) is copied into v *)
 UpdateValue(v, w) ==
@@ -189,7 +198,7 @@ UpdateValue(v, w) ==
   /\ valDirty' = [valDirty EXCEPT ![v] = TRUE]
   /\ use' = NoUse
   /\ last' = [name |-> "UpdateValue", args |-> <<v, w>>]
-  /\ UNCHANGED <<bcAlive, bcC, bcDirty, bcPer, everShared, alive, bcOf, cacheFrom, precalc>>
+  /\ UNCHANGED <<bcAlive, bcC, bcDirty, bcPer, viewHot, everShared, alive, bcOf, cacheFrom, precalc>>
 
 (* w = v.copy(): full array copied as it is, BC object deep-copied (same content, same flags) *)
 Copy(v, w, b) ==
@@ -203,6 +212,7 @@ Copy(v, w, b) ==
   /\ cacheFrom' = [cacheFrom EXCEPT ![w] = bcC[bcOf[v]]]
   /\ use' = NoUse
   /\ bcPer' = [bcPer EXCEPT ![b] = bcPer[bcOf[v]]]
+  /\ viewHot' = [viewHot EXCEPT ![b] = {}]     \* a deep copy: nobody holds views of the new arrays
   /\ last' = [name |-> "Copy", args |-> <<v, w, b>>]
 
 (* r = op(v [, w | scalar]) / funceval: new interior values, deep copy of v's BC object,
@@ -218,6 +228,7 @@ Arith(v, r, b, op) ==
   /\ cacheFrom' = [cacheFrom EXCEPT ![r] = bcC[bcOf[v]]]
   /\ use' = NoUse
   /\ bcPer' = [bcPer EXCEPT ![b] = bcPer[bcOf[v]]]
+  /\ viewHot' = [viewHot EXCEPT ![b] = {}]     \* a deep copy: nobody holds views of the new arrays
   /\ last' = [name |-> "Arith", args |-> <<v, r, b, op>>]
 
 \* effect of apply_BCs on variable v, given the interior content ic it has at that moment
@@ -233,7 +244,7 @@ ApplyBCs(v) ==
   /\ Applied(v, intC[v])
   /\ use' = NoUse
   /\ last' = [name |-> "ApplyBCs", args |-> <<v>>]
-  /\ UNCHANGED <<bcAlive, bcC, bcPer, everShared, alive, bcOf, intC, precalc>>
+  /\ UNCHANGED <<bcAlive, bcC, bcPer, viewHot, everShared, alive, bcOf, intC, precalc>>
 
 NeedsApply(v) == bcDirty[bcOf[v]] # {} \/ valDirty[v]
 
@@ -252,7 +263,7 @@ SolvePDEWith(v, entry) ==
             ELSE /\ intC' = [intC EXCEPT ![v] = FreshInt]
                  /\ Applied(v, FreshInt)
   /\ last' = [name |-> "SolvePDE", args |-> <<v>>]
-  /\ UNCHANGED <<bcAlive, bcC, bcPer, everShared, alive, bcOf, precalc>>
+  /\ UNCHANGED <<bcAlive, bcC, bcPer, viewHot, everShared, alive, bcOf, precalc>>
 SolvePDE(v) == SolvePDEWith(v, NeedsApply(v))
 
 (* solvePDE(v, terms) raises while it assembles the system (an unknown term object, a vector of the wrong size after
@@ -264,7 +275,7 @@ SolveFails(v) ==
      ELSE UNCHANGED <<ghostFrom, cacheFrom, bcDirty, valDirty>>
   /\ use' = NoUse
   /\ last' = [name |-> "SolveFails", args |-> <<v>>]
-  /\ UNCHANGED <<bcAlive, bcC, bcPer, everShared, alive, bcOf, intC, precalc>>
+  /\ UNCHANGED <<bcAlive, bcC, bcPer, viewHot, everShared, alive, bcOf, intC, precalc>>
 
 (* r = solveExplicitPDE(v, dt, RHS): entry check on v ; new variable r SHARING v's BC object *)
 SolveExplicitWith(v, r, entry) ==
@@ -282,7 +293,7 @@ SolveExplicitWith(v, r, entry) ==
   /\ everShared' = [everShared EXCEPT ![bcOf[v]] = TRUE]
   /\ use' = NoUse
   /\ last' = [name |-> "SolveExplicit", args |-> <<v, r>>]
-  /\ UNCHANGED <<bcAlive, bcC, bcPer>>
+  /\ UNCHANGED <<bcAlive, bcC, bcPer, viewHot>>
 SolveExplicit(v, r) == SolveExplicitWith(v, r, NeedsApply(v))
 
 (* r = solveMatrixPDE(mesh, M, RHS): a new variable with its own default BC object *)
@@ -298,6 +309,7 @@ SolveMatrix(r, b) ==
   /\ cacheFrom' = [cacheFrom EXCEPT ![r] = FreshBC]
   /\ use' = NoUse
   /\ bcPer' = [bcPer EXCEPT ![b] = {}]
+  /\ viewHot' = [viewHot EXCEPT ![b] = {}]
   /\ last' = [name |-> "SolveMatrix", args |-> <<r, b>>]
 
 (* any term / mean / gradient / divergence / boundary-term / location builder: pure *)
@@ -305,7 +317,7 @@ Build(v, kind) ==
   /\ alive[v]
   /\ use' = NoUse
   /\ last' = [name |-> "Build", args |-> <<v, kind>>]
-  /\ UNCHANGED <<bcAlive, bcC, bcDirty, bcPer, everShared, alive, bcOf, intC, ghostFrom, cacheFrom,
+  /\ UNCHANGED <<bcAlive, bcC, bcDirty, bcPer, viewHot, everShared, alive, bcOf, intC, ghostFrom, cacheFrom,
                  valDirty, precalc>>
 
 (* the variable goes out of scope (frees a slot of the bounded pool) *)
@@ -316,7 +328,7 @@ Drop(v) ==
        bcAlive' = [bcAlive EXCEPT ![b] = UsersOf(b) # {v}]
   /\ use' = NoUse
   /\ last' = [name |-> "Drop", args |-> <<v>>]
-  /\ UNCHANGED <<bcC, bcDirty, bcPer, everShared, bcOf, intC, ghostFrom, cacheFrom, valDirty, precalc>>
+  /\ UNCHANGED <<bcC, bcDirty, bcPer, viewHot, everShared, bcOf, intC, ghostFrom, cacheFrom, valDirty, precalc>>
 
 (* a BoundaryConditions object that no variable refers to goes out of scope *)
 DropBC(b) ==
@@ -324,7 +336,7 @@ DropBC(b) ==
   /\ bcAlive' = [bcAlive EXCEPT ![b] = FALSE]
   /\ use' = NoUse
   /\ last' = [name |-> "DropBC", args |-> <<b>>]
-  /\ UNCHANGED <<bcC, bcDirty, bcPer, everShared, alive, bcOf, intC, ghostFrom, cacheFrom, valDirty, precalc>>
+  /\ UNCHANGED <<bcC, bcDirty, bcPer, viewHot, everShared, alive, bcOf, intC, ghostFrom, cacheFrom, valDirty, precalc>>
 
 Ops == {"add", "mul_scalar", "neg", "funceval"}
 
@@ -363,7 +375,7 @@ Emit == PrintT("@@ " \o ToJson(Projection))
 \* (exhaustive mode, one worker, as ACTION_CONSTRAINT) print every transition of the state graph:
 \* source and target state keys and the projection of the target, so that the harness can
 \* replay every (state, action) pair of the bounded model along a shortest path
-StateKey == ToJson(<<bcAlive, bcC, bcDirty, bcPer, everShared, alive, bcOf, intC, ghostFrom, cacheFrom,
+StateKey == ToJson(<<bcAlive, bcC, bcDirty, bcPer, viewHot, everShared, alive, bcOf, intC, ghostFrom, cacheFrom,
                      valDirty, precalc, use>>)
 EmitEdge == PrintT("@@ " \o ToJson([src |-> StateKey, dst |-> StateKey', step |-> Projection']))
 \* (the SYMMETRY set lives in FVLifecycleMC: TLC evaluates constant definitions eagerly, and the trace
@@ -373,7 +385,7 @@ Bounded == TLCGet("level") <= MaxDepth
 -----------------------------------------------------------------------------
 (* properties *)
 TypeOK ==
-  /\ \A b \in BCs : bcDirty[b] \subseteq Sides /\ bcPer[b] \subseteq Sides
+  /\ \A b \in BCs : bcDirty[b] \subseteq Sides /\ bcPer[b] \subseteq Sides /\ viewHot[b] \subseteq Sides
   /\ \A v \in AliveVars : bcAlive[bcOf[v]]
 
 \* C09: a solve never reads a cache that was never built
